@@ -213,6 +213,7 @@ func TestC03_FrameMutations(t *testing.T) {
 			p.IHL = uint8(rapid.SampledFrom([]int{5, 5, 5, 6, 15}).Draw(t, "ihl"))
 			p.FragOff = uint16(rapid.SampledFrom([]int{0, 0, 0, 1, 8191}).Draw(t, "fragoff"))
 		}
+		p.MoreFrag = rapid.IntRange(0, 3).Draw(t, "more_fragments") == 0
 		sel := uint8(rapid.IntRange(0, 255).Draw(t, "sel"))
 		prog := c03FuzzProgs[int(sel)%len(c03FuzzProgs)]
 		p.L2 = prog[len(prog)-1] != '3'
